@@ -189,6 +189,28 @@ def sig_digits(n: int) -> int:
     return len(str(abs(n)).rstrip('0')) if n else 1
 
 
+def den_int(n: int) -> str:
+    """decimal normal form of an integer in the driver's `sign:digits:decpt` syntax (Lean: denInt)"""
+    t = str(abs(n))
+    return '%s:%s:%d' % ('-' if n < 0 else '+', t.rstrip('0') or '0', len(t) if n else 1)
+
+
+def rnd_table(v: Any) -> str:
+    """the float() roundings the real run performs on the integer literals of v (the trusted parameter `rnd` of
+    the model's numberOfText): `in>out` pairs, identity omitted"""
+    out = []
+    for n in all_numbers(v):
+        if isinstance(n, int) and not isinstance(n, bool):
+            a = den_int(n)
+            neg, digits, decpt = shortest(float(n))
+            if float(n) == 0:
+                neg = n < 0
+            b = '%s:%s:%d' % ('-' if neg else '+', digits, decpt)
+            if a != b and a + '>' + b not in out:
+                out.append(a + '>' + b)
+    return ';'.join(out) or '-'
+
+
 def int_in_model(n: int) -> bool:
     """xml-to-json goes through float(): the model's digit-preserving reading is exact for <= 15 digits"""
     return sig_digits(n) <= 15
@@ -890,7 +912,9 @@ def check_j2x(run: Run, case, ans) -> list[Disagreement]:
     v2 = case['_v2']
     st = run.stats
     tree, out = impl_j2x(t, policy)
-    in_model = all(int_in_model(n) for n in all_numbers(v2) if isinstance(n, int))
+    in_model = True          # the roundings float() performed are passed to the model (rnd_table)
+    if any(not int_in_model(n) for n in all_numbers(v2) if isinstance(n, int) and not isinstance(n, bool)):
+        st.count('j2x:integer-rounded-by-float()')
     dups = has_dup_keys(replace_non_xml(v2))
     # expected result by the standard (F&O 17.4/17.5): same JSON value up to number spelling, non-XML
     # characters replaced by U+FFFD, duplicates: retain -> xml-to-json must reject (FOJS0006),
@@ -1108,6 +1132,127 @@ def check_xml(run: Run, case) -> list[Disagreement]:
     return out
 
 
+def gen_xml_string(rng) -> str:
+    pool = ['&', '<', '>', '"', "'", '\r', '\n', '\t', '\r\n', ']]>', '&amp;', '&#13;', ' ', 'a', 'b', 'é', '\U0001f600', '\x7f', '\x85', '\u2028']
+    return ''.join(rng.choice(pool) for _ in range(rng.choice([0, 1, 2, 3, 5, 8])))
+
+
+def check_xesc(run: Run, case, ans) -> list[Disagreement]:
+    """the escaping the serializers apply (library code, modelled) and the whole repo path on one element"""
+    c = ep()
+    ET = c['ET']
+    import lxml.etree as LE
+    f = fields(ans)
+    s = case['s']
+    out = []
+    st = run.stats
+    cj = {'kind': 'XESC', 's': cps(s)}
+    has_cr = '\r' in s
+    st.count('xesc:' + ('CR' if has_cr else 'no-CR'))
+    # 1. library escaping functions vs model
+    try:
+        impl_t, impl_a = ET._escape_cdata(s), ET._escape_attrib(s)
+    except Exception as e:
+        impl_t = impl_a = err_text(e)
+    if cps(impl_t) != f['ettext']:
+        out.append(Disagreement(cj, cps(impl_t), f['ettext'], what='ElementTree._escape_cdata', site='xml.etree.ElementTree'))
+    if cps(impl_a) != f['etattr']:
+        out.append(Disagreement(cj, cps(impl_a), f['etattr'], what='ElementTree._escape_attrib', site='xml.etree.ElementTree'))
+    el = LE.Element('a')
+    el.text = s
+    lx = LE.tostring(el, encoding='unicode')
+    lx_t = lx[3:-4] if s else ''
+    if cps(lx_t) != f['lxtext']:
+        out.append(Disagreement(cj, cps(lx_t), f['lxtext'], what='lxml text escaping', site='lxml.etree.tostring'))
+    # 2. the spec reader vs the real parser (expat) on the same serialized text
+    try:
+        pe = ET.fromstring('<a k="%s">%s</a>' % (impl_a, impl_t))
+        real_t, real_a = okcps(pe.text or ''), okcps(pe.get('k'))
+    except Exception as e:
+        real_t = real_a = 'ERR'
+    if real_t != f['rt'] or real_a != f['ra']:
+        out.append(Disagreement(cj, real_t + ' ' + real_a, f['rt'] + ' ' + f['ra'],
+                                what='spec XML reader vs expat (spec validation)'))
+    # 3. the property on the repository's path, both backends
+    for lib, E in (('etree', ET), ('lxml', LE)):
+        a = E.Element('a')
+        a.text = s
+        a.set('k', s)
+        try:
+            res = xq('parse-xml(serialize(.))', root=a)
+            doc = res[0] if isinstance(res, list) else res
+            inner = getattr(doc, 'value', None)
+            if inner is not None and hasattr(inner, 'getroot'):
+                doc = inner
+            r = doc.getroot()
+            impl = okcps(r.text or '') + ' ' + okcps(r.get('k'))
+        except Exception as e:
+            impl = err_text(e)
+        spec = okcps(s) + ' ' + okcps(s)
+        model = (f['rt'] if lib == 'etree' else f['rl']) + ' ' + f['ra']
+        if impl != spec or impl != model:
+            tags = ['F17n'] if lib == 'etree' and has_cr and f['cr'] == '1' else []
+            out.append(Disagreement(dict(cj, lib=lib), impl, model, spec=spec, tags=tags,
+                                    what='parse-xml(serialize(<a k=s>s</a>)) text and attribute', site='fn:serialize / fn:parse-xml'))
+    return out
+
+
+def check_jxe(run: Run, case, ans) -> list[Disagreement]:
+    """one string through json-to-xml(..., escape:true) and xml-to-json: text, `escaped` attribute, output"""
+    f = fields(ans)
+    s = case['s']
+    out = []
+    cj = {'kind': 'JXE', 's': cps(s)}
+    t = json.dumps(s)
+    run.stats.count('jxe:' + ('backslash' if '\\' in s else 'slash' if '/' in s else 'other'))
+    try:
+        doc = xq('json-to-xml($t, map{"escape":true()})', t=t)
+        root = doc[0].getroot() if isinstance(doc, list) else doc.getroot()
+        text = root.text or ''
+        esc = '1' if root.get('escaped') in ('true', '1') else '0'
+        tree = cps(text) + ' esc=' + esc
+    except Exception as e:
+        tree = err_text(e)
+    if tree != f['j2x'] + ' esc=' + f['esc']:
+        out.append(Disagreement(cj, tree, f['j2x'] + ' esc=' + f['esc'], what='json-to-xml escape:true string', site='json-to-xml escape_string'))
+        return out
+    try:
+        o = xq('xml-to-json(json-to-xml($t, map{"escape":true()}))', t=t)
+        impl = okcps(o) if isinstance(o, str) else '?%r' % (o,)
+    except Exception as e:
+        impl = err_text(e)
+    try:
+        back = okcps(json.loads(o)) if impl.startswith('ok:') else impl
+    except Exception as e:
+        back = 'ERR:unreadable:' + type(e).__name__
+    spec = okcps(s)
+    if back != spec:
+        out.append(Disagreement(cj, back, f['dec'], spec=spec, what='xml-to-json(json-to-xml(t, escape:true)) string value',
+                                site='escape_json_string(escaped=True) / check_escapes'))
+    if impl != f['x2j']:
+        out.append(Disagreement(cj, impl, f['x2j'], what='xml-to-json escaped string text', site='xml-to-json'))
+    return out
+
+
+def check_j2xe(run: Run, case) -> list[Disagreement]:
+    """whole values with escape:true (keys get escaped-key): value preserved exactly (no U+FFFD replacement)"""
+    t = case['t']
+    v2 = py_loads(t)
+    if any(isinstance(n, float) and (math.isinf(n) or math.isnan(n)) for n in all_numbers(v2)):
+        return []
+    spec = 'ERR:FOJS0006' if has_dup_keys(v2) else sem(v2)
+    try:
+        o = xq('xml-to-json(json-to-xml($t, map{"escape":true()}))', t=t)
+        impl = sem(py_loads(o))
+    except Exception as e:
+        impl = err_text(e)
+    run.stats.count('j2xe:' + ('error-expected' if spec.startswith('ERR') else 'value'))
+    if impl != spec:
+        return [Disagreement({'kind': 'J2XE', 't': t}, impl, None, spec=spec, what='xml-to-json(json-to-xml(t, escape:true))',
+                             site='json-to-xml / xml-to-json, escape option')]
+    return []
+
+
 # one token, several evaluations inside ONE expression ---------------------------------------------------
 MULTI_EXPR = {
     # sub-kind: (for-expression, single expression, variable, every item must be True?)
@@ -1220,7 +1365,8 @@ def check_multi(run: Run, case) -> list[Disagreement]:
                                 site=MULTI_EXPR[sub][1]))
     elif MULTI_EXPR[sub][3] and want != json.dumps([True] * n):
         cj['items'] = [canon_xml(x) for x in items]
-        out.append(Disagreement(cj, got, None, spec=json.dumps([True] * n),
+        tags = ['F17n'] if lib == 'etree' and any(subtree_has_cr(x) for x in items) else []
+        out.append(Disagreement(cj, got, None, spec=json.dumps([True] * n), tags=tags,
                                 what='deep-equal(parse-xml(serialize($e)), $e) over a sequence of nodes', site='fn:serialize / fn:parse-xml'))
     return out
 
@@ -1236,9 +1382,13 @@ def driver_line(case) -> str | None:
     if k == 'PARSE':
         return 'PARSE p=%s t=%s' % (case['policy'] or 'first', cps(case['t']))
     if k == 'J2X':
-        return 'J2X p=%s v=%s' % (case['policy'], enc(case['_v2']))
+        return 'J2X p=%s r=%s v=%s' % (case['policy'], rnd_table(case['_v2']), enc(case['_v2']))
     if k == 'X2J':
         return 'X2J e=' + enc_elem(case['elem'])
+    if k == 'XESC':
+        return 'XESC s=' + cps(case['s'])
+    if k == 'JXE':
+        return 'JXE s=' + cps(case['s'])
     return None
 
 
@@ -1294,6 +1444,12 @@ def evaluate(run: Run, cases: list[dict]) -> list[list[Disagreement]]:
             results[i] = check_xml(run, c)
         elif k == 'MULTI':
             results[i] = check_multi(run, c)
+        elif k == 'XESC':
+            results[i] = check_xesc(run, c, a)
+        elif k == 'JXE':
+            results[i] = check_jxe(run, c, a)
+        elif k == 'J2XE':
+            results[i] = check_j2xe(run, c)
     if results:
         results[0] = reuse_disagreements() + results[0]      # the replayable histories first
     return results
@@ -1334,6 +1490,9 @@ CORPUS: list[dict] = [
     {'kind': 'PARSE', 't': '{"a":1,"b":2,"a":3}', 'policy': 'last'}, {'kind': 'PARSE', 't': '{"a":1,"a":2}', 'policy': 'reject'},
     {'kind': 'PARSE', 't': '{"a":1,"a":2}', 'policy': None}, {'kind': 'PARSE', 't': '{"a":{"x":1,"x":2},"a":3}', 'policy': 'first'},
     {'kind': 'X2J', 'elem': ('m', None, None, [('n', 'a', None, []), ('s', 'b\\n', 'x\\y"/', []), ('d', 'c', '1e+20', [])])},
+    {'kind': 'JXE', 's': '/'}, {'kind': 'JXE', 's': '\\/'}, {'kind': 'JXE', 's': 'b\\"'}, {'kind': 'JXE', 's': '\\uZZZZ'}, {'kind': 'JXE', 's': 'a\\'},
+    {'kind': 'J2XE', 't': '{"a\\\\b":[],"":[],"a":[false,null]}'},
+    {'kind': 'XESC', 's': 'x\ry'}, {'kind': 'XESC', 's': 'a&b<c>d"e\'f\r\n\tg]]>'},
     {'kind': 'X2J', 'elem': ('n', None, 'x', [])}, {'kind': 'X2J', 'elem': ('m', None, None, [('n', None, None, [])])},
     {'kind': 'X2J', 'elem': ('m', None, None, [('b', 'k', '1', []), ('b', 'k', '0', [])])},
 ]
@@ -1397,6 +1556,13 @@ def gen_cases(run: Run) -> list[dict]:
         cases.append(c)
     for _ in range(120 * n):
         cases.append(gen_multi(rng))
+    for _ in range(150 * n):
+        cases.append({'kind': 'XESC', 's': gen_xml_string(rng)})
+    for _ in range(200 * n):
+        cases.append({'kind': 'JXE', 's': gen_string(rng, allow_nonxml=rng.random() < 0.4, p_special=0.45).replace('\ud800', '').replace('\udc00', '')})
+    for _ in range(150 * n):
+        v = gen_value(rng, rng.choice([0, 1, 2, 3]), j_kinds + (['nonxml'] if rng.random() < 0.3 else []), dups=0.1 if rng.random() < 0.2 else 0.0)
+        cases.append({'kind': 'J2XE', 't': write_json(rng, v, loose=rng.random() < 0.5)})
     rng.shuffle(cases)          # interleave the families: a reused token sees different kinds of inputs in turn
     return cases
 
@@ -1405,6 +1571,7 @@ def correspond(run: Run, cases: list[dict]) -> None:
     st = run.stats
     for i in range(0, len(cases), 1500):
         chunk = cases[i:i + 1500]
+        run.log('chunk', i, len(cases))
         for c, ds in zip(chunk, evaluate(run, chunk)):
             cj = case_json(c)
             nontrivial = bool(c.get('s') or c.get('t') or c.get('elem') or c.get('v') is not None or c['kind'] in ('XML', 'MULTI'))
@@ -1557,6 +1724,7 @@ def body(run: Run) -> int:
                       'spellings x 3 policies; X2J element trees incl. invalid shapes; XML trees in ElementTree and lxml with '
                       'namespaces, attributes, mixed content, comments, PIs). distinct = distinct canonical inputs')
     run.prove(['EPV.Props.C17'], ['EPV.Model.Json', 'EPV.Spec.RFC8259'])
+    run.log('proofs checked')
     try:
         correspond(run, [dict(c) for c in CORPUS] + gen_cases(run))
     except DriverError as e:
